@@ -6,6 +6,7 @@ from beziers.boundingbox import BoundingBox
 from beziers.path.geometricshapes import Rectangle
 from beziers.line import Line
 from beziers.cubicbezier import CubicBezier
+from beziers.quadraticbezier import QuadraticBezier
 from beziers.utils.linesweep import bbox_intersections
 
 RULE = ('boxes/points on an integer grid (incl. zero-width/zero-height boxes, points on edges and corners) and random floats; sweep: ALL '
@@ -167,10 +168,19 @@ def search(ctx):
     # real shapes (paths and segments), as the API is used
     for _ in range(ctx.n(30, 400)):
         A = [Rectangle(rng.uniform(5, 80), rng.uniform(5, 80), origin=P(rng.uniform(-200, 200), rng.uniform(-200, 200))) for _ in range(rng.randint(0, 10))]
-        B = [gen.segment(rng, order=rng.choice([2, 4]), fam='float')[0] for _ in range(rng.randint(0, 10))]
+        B = [gen.segment(rng, order=rng.choice([2, 3, 4]), fam='float')[0] for _ in range(rng.randint(0, 10))]
         if B and rng.random() < 0.5:
             # distinct Segment OBJECTS that compare equal (coincident segments): they are different shapes and each pairs on its own
             for _k in range(rng.randint(1, 2)): B.insert(rng.randrange(len(B) + 1), gen.fresh_copy(rng.choice(B)))
+            if rng.random() < 0.5: A, B = B, A
+        elif B:
+            # a segment that is a PREFIX of another one in the same collection: the Line along a curve's first handle, the quadratic through a cubic's
+            # first three control points (different shapes with different boxes, although their leading control points are equal)
+            for _k in range(rng.randint(1, 3)):
+                c = rng.choice(B)
+                if len(c.points) >= 3:
+                    pre = Line(P(c[0].x, c[0].y), P(c[1].x, c[1].y)) if (len(c.points) == 3 or rng.random() < 0.6) else QuadraticBezier(P(c[0].x, c[0].y), P(c[1].x, c[1].y), P(c[2].x, c[2].y))
+                    B.insert(rng.randrange(len(B) + 1), pre)
             if rng.random() < 0.5: A, B = B, A
         if not tie_free([a.bounds() for a in A], [b.bounds() for b in B]): continue
         ev += 1; dist['sweep/shapes'] = dist.get('sweep/shapes', 0) + 1
